@@ -29,6 +29,8 @@ func checkC03(p *Prog, r *Report) {
 	checkC03Document(p, r)
 	checkC03Resource(p, r)
 	checkC03SelfLink(p, r)
+	r.rule("C03.to-many-emission (shared with C01/C06): the loop of MarshalResource that writes a to-many relationship's identifiers emits one identifier per ID (an append, or the slot of its own index) on every iteration: no hole (a JSON null) and no missing identifier in the linkage array")
+	checkToManyEmission(p, r, "C03")
 	checkC03Provenance(p, r)
 	checkC03Include(p, r)
 }
